@@ -201,6 +201,7 @@ func (eng *Engine) addContractFile(cf *ContractFile, external bool) {
 			continue
 		}
 		fc.Requires, fc.Ensures, fc.Assigns, fc.HasAssigns, fc.Loops, fc.Pure = src.Requires, src.Ensures, src.Assigns, src.HasAssigns, src.Loops, src.Pure
+		fc.Iterates, fc.Callback, fc.Preserves = src.Iterates, src.Callback, src.Preserves
 	}
 	for _, g := range cf.Ghosts {
 		eng.ghosts[g.Pkg+"."+g.Name] = g
